@@ -26,6 +26,9 @@ type solverSpec struct {
 
 var solvers = []solverSpec{
 	{"z3-new", func(f string, s int) []string { return []string{"z3-new", fmt.Sprintf("-T:%d", s), f} }},
+	{"z3-new/ematch", func(f string, s int) []string {
+		return []string{"z3-new", fmt.Sprintf("-T:%d", s), "smt.auto_config=false", "smt.mbqi=false", f}
+	}},
 	{"cvc5", func(f string, s int) []string {
 		return []string{"cvc5", "--lang=smt2", fmt.Sprintf("--tlimit=%d", s*1000), f}
 	}},
@@ -116,15 +119,33 @@ func dischargeOne(o *Obligation, idx int, cfg SolverCfg) {
 	if cfg.Timeout < short {
 		short = cfg.Timeout
 	}
-	res, out, _ := runSolver(solvers[0], file, short)
-	if res == "unsat" && !cfg.AllAgree {
-		o.Result, o.Solver, o.Output = res, solvers[0].name, ""
-		return
+	type r1 struct {
+		res, out, name string
 	}
-	if res == "sat" {
-		o.Result, o.Solver, o.Output = res, solvers[0].name, trimOut(out)
-		return
+	c1 := make(chan r1, 2)
+	for _, sp := range solvers[:2] {
+		sp := sp
+		go func() {
+			a, b, _ := runSolver(sp, file, short)
+			c1 <- r1{a, b, sp.name}
+		}()
 	}
+	res, out := "unknown", ""
+	for k := 0; k < 2; k++ {
+		g := <-c1
+		if g.res == "unsat" && !cfg.AllAgree {
+			o.Result, o.Solver, o.Output = g.res, g.name, ""
+			return
+		}
+		if g.res == "sat" {
+			o.Result, o.Solver, o.Output = g.res, g.name, trimOut(g.out)
+			return
+		}
+		if g.res == "unsat" {
+			res, out = g.res, g.out
+		}
+	}
+	_ = out
 	// stage 2: race all solvers with the full budget
 	type r struct {
 		res, out, name string
